@@ -18,6 +18,7 @@ func checkC18(p *Program, r *Report) {
 		"R1 in the non-interactive runner every return of 0 is reachable only when the error returned by vm.Execute is nil; the non-nil edge returns 4 after exactly one print call that includes the error; every other error-returning call in the runner (reading the file) has its error tested and its failure edge returns 2; main hands the runner's result to os.Exit unchanged. " +
 		"R2 vm.Execute is called once, with nil options, on the environment that the setup function created, in which it defined args and to which it applied core.Import; package main links the bundled packages (blank import). " +
 		"R5 one stream: no buffered handle on os.Stdout exists in the command, the builtins or the interpreter, or else every direct write and every os.Exit of package main comes after a Flush with no script execution in between (a diagnostic cannot overtake the script's output, no output is lost at exit). " +
+		"R6 every index expression of package main is dominated by tests of both of its bounds (the command has no recover: a Go panic ends it with status 2 whatever the library returned). R7 package main never stores to os.Args (the script's arguments are a sub-slice of it). " +
 		"R3 script arguments are the arguments after the file name, taken only when a file name is present.")
 	r.Assume("behaviour of the built binary as a process and the bytes a script prints are not decided")
 	sp := p.SSAPkg("")
@@ -27,6 +28,7 @@ func checkC18(p *Program, r *Report) {
 		return
 	}
 	c18OneStream(p, r, sp)
+	c18NoPanicNoArgsRewrite(p, r, sp)
 	vmSp := p.SSAPkg("vm")
 	var execFn *ssa.Function
 	if vmSp != nil {
